@@ -372,7 +372,7 @@ def termHugeInt : Term → Bool
 /-- diagnostic for finding C13-neg-overflow-panic: the query negates and an integer of magnitude
 ≥ 2^62 is around (`-isize::MIN` overflows; the model's integers are unbounded and do not panic) -/
 def negMin (D : List Quad) (p : GP) : Bool :=
-  (gpExprs p).any exprHasNeg &&
+  !Gen.SparqlDispatch.negChecked && (gpExprs p).any exprHasNeg &&
     (D.any (fun q => termHugeInt q.s || termHugeInt q.o) || ((gpExprs p).flatMap exprTerms).any termHugeInt ||
      (gpTerms p).any termHugeInt)
 
